@@ -75,3 +75,16 @@ META["C15"]["text"] += " HEAD requests carry validators and Range too (HEAD entr
 META["C16"]["text"] += " 40% of the scenarios put all caches (8 entries each) on one shared badger directory and retain 40 entries: what lives in the store only must survive the removal of other caches."
 META["C17"]["text"] += " Applied configurations include caches with store urls (badger directory in two spellings, one that cannot be opened, an unreachable redis): every server must still answer."
 META["C19"]["text"] += " Health-check paths /health, / and /ping; 'down' is either a closed listener or a server that keeps listening and answers 500 to everything."
+# round 5
+_ALL = " Every oracle evaluated in a run counts for this check (an oracle the model attributes to another listed property still fails it; the attribution is kept in the oracle name)."
+for _p in META:
+    META[_p]["text"] += _ALL
+META["C03"]["text"] += " TestC03Forward also has a location that adds its own Cache-Control response header in front of origins answering private / no-store / no-cache / Set-Cookie."
+META["C04"]["text"] += " Every key has a twin of the other method (GET/HEAD) on the same URI."
+META["C05"]["text"] += " Compress levels include out-of-range values (10-12, 100), which must fall back to the defaults."
+META["C09"]["text"] += " TestC09FilterLimit: every content-type filter the configuration validation accepts (ASCII and multi-byte, around 1000 bytes / characters) must survive the round trip of an entry."
+META["C13"]["text"] += " TestC13Server configures a sibling server with other settings before or after the server under test."
+META["C16"]["text"] += " 40% of the scenarios end with two saves 1-300 ms apart (the first makes the reload slow): the instance must end up with the last one."
+META["C17"]["text"] += " Location hosts in applied configurations are mixed-case and probed as written."
+META["C18"]["text"] += " TestC18Admin runs half of its cases on stores whose delete takes 15 ms and purges keys while clients keep asking for them."
+META["C20"]["text"] += " Half of the stress traffic goes through a rewrite rule with two captures."
